@@ -11,20 +11,20 @@ LAYOUT = {'indent', 'indentClosingBrace', 'lineSeparator', 'listItemSpacer', 'pa
 
 
 def run(chk):
-    r06a(chk)
-    r06b(chk)
+    chk.attempt(r06a, chk)
+    chk.attempt(r06b, chk)
     from .c16 import r16b
     from .c18 import r18a, r18d
 
-    r16b(chk, 'R06.c')
-    r18d(chk, 'R06.d')
-    r18a(chk, 'R06.e')
-    r06f(chk)
-    r06g(chk)
+    chk.attempt(r16b, chk, 'R06.c')
+    chk.attempt(r18d, chk, 'R06.d')
+    chk.attempt(r18a, chk, 'R06.e')
+    chk.attempt(r06f, chk)
+    chk.attempt(r06g, chk)
     from .c13 import r13h
 
-    r13h(chk, 'R06.h')
-    r06i(chk)
+    chk.attempt(r13h, chk, 'R06.h')
+    chk.attempt(r06i, chk)
 
 
 def pref_sets(repo):
